@@ -668,6 +668,14 @@ def panic_rule(ck, F, rule, entries, stops, excepts, skip_dirs=("/functions/",),
                 ck.ob(rule, it[3], True, "ASSUMED (entry %r, operands renamed): %s" % (k[1], excepts[k]), nontrivial=False)
             continue
         for qn, cls, inst, key, f, l, desc, _site in items:
+            # the code of an excepted site was moved into another function of the same file (a closure body turned into
+            # a named helper): same class, same descriptor, and the entry's own function no longer has the site
+            moved = [k for k in sorted(set(excepts) - used)
+                     if k[1].split("#")[0] == inst.split("#")[0] and _same_file(F, k[0], _site[0]) and exc_ok(*_site, excepts[k])]
+            if len(moved) == 1:
+                used.add(moved[0])
+                ck.ob(rule, key, True, "ASSUMED (entry %s|%s, code moved within the file): %s" % (moved[0][0], moved[0][1], excepts[moved[0]]), nontrivial=False)
+                continue
             undischarged.append((key, f, l, cls))
             ck.ob(rule, key, False, "potential panic (%s) reachable from a text/import entry point and not discharged: %s" % (cls, desc), f, l)
     stale = [k for k in sorted(set(excepts) - used) if scope_filter is None or scope_filter(k)]
@@ -677,6 +685,16 @@ def panic_rule(ck, F, rule, entries, stops, excepts, skip_dirs=("/functions/",),
     ck.note("per_class", per_class)
     ck.note("reachable_bodies", len(reach))
     return undischarged
+
+
+def _same_file(F, qn, path):
+    """the function named qn (as in the exception table) is defined in the file of body `path`"""
+    f = F.heads[path]["file"]
+    for p in F.find(qn.split("::{closure")[0].split("::{promoted")[0]):
+        if F.heads[p]["file"] == f:
+            return True
+    # the entry's function may be gone entirely (its body was the thing moved): compare module paths
+    return qn.rsplit("::", 1)[0].split("::{closure")[0].rsplit("::", 1)[0] in F.qname_of(path)
 
 
 def _atom(b, o):
